@@ -209,6 +209,30 @@ func propG(c GCase) error {
 		if d := diffJSON(exp, bm); d != "" {
 			return fmt.Errorf("round trip differs: %s\n%s", d, clip(string(data)))
 		}
+		// the same geometry object as a member in several places of a collection tree
+		// (a value, not a cycle): GEOMETRYCOLLECTION(g, GEOMETRYCOLLECTION(g), g)
+		inner := geom.NewGeometryCollection()
+		outer := geom.NewGeometryCollection()
+		if inner.Push(t) == nil && outer.Push(t, inner, t) == nil {
+			gm := &model.G{Kind: model.GeometryCollection, Members: []model.G{*g, {Kind: model.GeometryCollection, Members: []model.G{*g}}, *g}}
+			if exp2, ok := expected(gm, geom.Layout(c.Default)); ok {
+				data2, err := geojson.Marshal(outer)
+				if err != nil {
+					return fmt.Errorf("geojson.Marshal of a collection holding the same object three times: %v", err)
+				}
+				var back2 geom.T
+				if err := geojson.Unmarshal(data2, &back2); err != nil {
+					return fmt.Errorf("geojson.Unmarshal of a collection holding the same object three times: %v\n%s", err, clip(string(data2)))
+				}
+				bm2, err := model.FromGeom(back2)
+				if err != nil {
+					return fmt.Errorf("decoded geometry not well formed: %v", err)
+				}
+				if d := diffJSON(exp2, bm2); d != "" {
+					return fmt.Errorf("round trip of a collection holding the same object three times differs: %s\n%s", d, clip(string(data2)))
+				}
+			}
+		}
 		return nil
 	})
 }
